@@ -233,7 +233,7 @@ def _obj_len_parity(obj: Any) -> Optional[CustomErr]:
     n = _sized(obj)
     if n is None:
         flds = getattr(obj, "__dataclass_fields__", None)
-        n = len(flds) if flds is not None else 0
+        n = len(flds) if flds is not None else (len(obj._fields) if hasattr(obj, "_fields") else 0)
     return None if n % 2 == 0 else CustomErr(2)
 
 
@@ -275,12 +275,31 @@ class _Rules:
 _RULES = _Rules()
 
 
+class _AsyncCheck1:
+    """An async whole-object check that is a callable *object* (async def __call__), not a coroutine function:
+    inspect.iscoroutinefunction says False for it, awaiting its result works all the same."""
+
+    async def __call__(self, obj: Any) -> Optional[CustomErr]:
+        return await _uaobj1(obj)
+
+    def __eq__(self, other: Any) -> bool:
+        return type(other) is _AsyncCheck1
+
+    def __hash__(self) -> int:
+        return 1
+
+    def __repr__(self) -> str:
+        return "<async check 1>"
+
+
 class _Bound(dict):
     def __init__(self, prefix: str) -> None:
         super().__init__()
         self.prefix = prefix
 
     def __getitem__(self, i: int) -> Any:
+        if self.prefix == "aobj" and i == 1:
+            return _AsyncCheck1()
         return getattr(_RULES, f"{self.prefix}{i}")
 
 
